@@ -33,6 +33,7 @@ package dag
 //@         obs.byreq_dag == dagStatus.DAG && cli.update_status == obs.byreq && cli.update_dag == dagStatus.DAG)
 //@   ensures [C20 edit_changes_exactly_the_addressed_step] cli.update != old(cli.update) ==>
 //@        (exists k int :: 0 <= k && k < len(obs.byreq.Nodes) && obs.byreq.Nodes[k].Step.Name == params.Body.Step && obs.byreq.Nodes[k].Status == to &&
+//@            obs.byreq.Nodes[k].StatusText == step_status_text(to) &&
 //@            (forall j int :: k < j && j < len(obs.byreq.Nodes) ==> obs.byreq.Nodes[j].Step.Name != params.Body.Step) &&
 //@            (forall n *persistence/model.Node :: n != obs.byreq.Nodes[k] ==> (n.Status == old(n.Status) && n.StatusText == old(n.StatusText))))
 //@   ensures [C20 refused_edit_changes_nothing] cerr != nil && cli.update == old(cli.update) ==>
